@@ -411,6 +411,8 @@ class Engine:
             if ty.kind == "none":
                 return val
             return from_flat(ty, default_flat(ty, none=True))
+        if val.ty.kind == "seq" and ty.kind == "seq" and val.tag and val.tag[0] == "items" and not val.tag[1]:
+            return self.seq_from_items([], ty.elts[0])      # an empty list literal takes the declared element type
         if val.ty.kind == ty.kind == "obj":
             return SV(ty, val.v, val.none)
         if val.ty.kind == "bool" and ty.kind == "int":
@@ -516,7 +518,7 @@ class Engine:
             if et.kind == "none":
                 et = INT
         sorts = flat_sorts(et)
-        arrs = [z3.K(z3.IntSort(), _dflt(s)) for s in sorts]
+        arrs = [z3.Const(fresh_name("emptyarr"), z3.ArraySort(z3.IntSort(), s)) if s == Obj else z3.K(z3.IntSort(), _dflt(s)) for s in sorts]
         for idx, it in enumerate(items):
             comps = to_flat(self.coerce(it, et), et)
             arrs = [z3.Store(a, I(idx), c) for a, c in zip(arrs, comps)]
@@ -1216,6 +1218,10 @@ class Engine:
         if c.assumed:
             self.trust(f"assumed contract: {qname}" + (f" ({c.trusted_note})" if c.trusted_note else ""))
         pre = st.fork()
+        # ghost arguments of the callee given explicitly by the caller's contract
+        gargs = (self.contract.ghost_args.get(short, {}) if self.contract is not None and not self.spec_mode else {})
+        for gname, gexpr in gargs.items():
+            bound["ghost." + gname] = self.eval_spec_value(gexpr, pre, {}, self.contract)
         # preconditions
         for name, expr in c.requires.items():
             g = self.eval_spec(expr, pre, bound, None, None, c)
